@@ -61,11 +61,12 @@ def checkOptMeu (kvs okv : List (String × String)) : String := Id.run do
   let some dec := (lookup kvs "dec").bind parseNatList | return "FAIL PARSE dec"
   let some util := (lookup kvs "util").bind parseNatList | return "FAIL PARSE util"
   let some us := (lookup kvs "us").bind parseNatList | return "FAIL PARSE us"
+  let uls := ((lookup kvs "uls").bind parseNatList).getD []
   let some pr := (lookup kvs "pr").bind parseNatList | return "FAIL PARSE pr"
   let w : Weights Sem.EU := fun v =>
     if dec.contains v then (⟨1, 0⟩, ⟨1, 0⟩)
     else match util.idxOf? v with
-      | some i => (⟨1, 0⟩, ⟨1, (us.getD i 0 : Nat)⟩)
+      | some i => (⟨1, (uls.getD i 0 : Nat)⟩, ⟨1, (us.getD i 0 : Nat)⟩)
       | none => let k : Rat := mkRat (pr.getD v 0) 8; (⟨k, 0⟩, ⟨1 - k, 0⟩)
   let vars := List.range n
   let best := meuSpec d.eval dec order w
